@@ -6,6 +6,7 @@ import (
 	"encoding/json"
 	"fmt"
 	"math/rand"
+	"runtime"
 	"sync"
 	"sync/atomic"
 	"time"
@@ -518,6 +519,109 @@ func c08Wide(w *ndWriter, seed int64, stack bool, shape string, P, Cn, per int) 
 	mu.Unlock()
 }
 
+// fresh objects: the FIRST calls on a just constructed wrapper come from K goroutines released together (anything the wrapper
+// sets up lazily on first use is raced); one insertion each, then a single goroutine drains.  One line per trial, judged like
+// the wide rounds (Trace_ConcWide: no panic, every value exactly once, nothing invented).
+func c08Fresh(w *ndWriter, stack bool, K int, mixed bool, trial int) {
+	out := c08WideOut{Kind: "queue", Shape: "fresh", Offered: []int{}, Got: map[string][]int{}, Drain: []int{}}
+	if stack {
+		out.Kind = "stack"
+	}
+	ll := fpgo.NewLinkedListQueue[int]()
+	var wr c08Wrapped
+	if stack {
+		wr = c08Wrapped{nil, fpgo.NewConcurrentStack[int](ll)}
+	} else {
+		wr = c08Wrapped{fpgo.NewConcurrentQueue[int](ll), nil}
+	}
+	var panics, ready, start int32
+	var mu sync.Mutex
+	safe := func(m string, v int) (got int, r string) {
+		r = "panic"
+		func() {
+			defer func() {
+				if recover() != nil {
+					atomic.AddInt32(&panics, 1)
+				}
+			}()
+			g, err := wr.call(m, v)
+			got, r = g, resOf(err)
+		}()
+		return
+	}
+	var wg sync.WaitGroup
+	for k := 0; k < K; k++ {
+		v := (k+1)*100000 + trial%90000 + 1
+		remover := mixed && k%2 == 1
+		if !remover {
+			out.Offered = append(out.Offered, v)
+		}
+		wg.Add(1)
+		go func(k, v int, remover bool) {
+			defer wg.Done()
+			atomic.AddInt32(&ready, 1)
+			for atomic.LoadInt32(&start) == 0 {
+			}
+			if remover {
+				m := "Poll"
+				if stack {
+					m = "Pop"
+				}
+				if got, r := safe(m, 0); r == "ok" {
+					mu.Lock()
+					out.Got[fmt.Sprintf("c%d", k+1)] = []int{got}
+					mu.Unlock()
+				}
+				return
+			}
+			m := []string{"Offer", "Put"}[k%2]
+			if stack {
+				m = "Push"
+			}
+			safe(m, v)
+		}(k, v, remover)
+	}
+	for atomic.LoadInt32(&ready) < int32(K) {
+		runtime.Gosched()
+	}
+	atomic.StoreInt32(&start, 1)
+	done := make(chan struct{})
+	go func() { wg.Wait(); close(done) }()
+	select {
+	case <-done:
+	case <-time.After(2 * time.Second):
+		out.Stuck = true
+	}
+	if !out.Stuck {
+		drained := make(chan []int, 1)
+		go func() {
+			d := []int{}
+			for k := 0; k < 4*K+8; k++ {
+				m := "Poll"
+				if stack {
+					m = "Pop"
+				}
+				v, res := safe(m, 0)
+				if res != "ok" {
+					break
+				}
+				d = append(d, v)
+			}
+			drained <- d
+		}()
+		select {
+		case d := <-drained:
+			out.Drain = d
+		case <-time.After(2 * time.Second):
+			out.Stuck = true
+		}
+	}
+	out.Panics = int(atomic.LoadInt32(&panics))
+	mu.Lock()
+	w.write(out)
+	mu.Unlock()
+}
+
 func c08Main(args []string) error {
 	switch args[0] {
 	case "wide":
@@ -532,7 +636,11 @@ func c08Main(args []string) error {
 			c08Wide(w, seed*977+int64(r), false, "trickle", 4, 8, 150)
 			c08Wide(w, seed*977+int64(r), r%2 == 1, "burst", 3, 4, 1500)
 		}
-		fmt.Printf("{\"runs\":%d}\n", 2*rounds)
+		fresh := flagInt(args, "fresh", 1200)
+		for t := 0; t < fresh; t++ {
+			c08Fresh(w, t%2 == 0, 2+t%7, t%5 == 4, t)
+		}
+		fmt.Printf("{\"runs\":%d}\n", 2*rounds+fresh)
 		return nil
 	case "modes": // which pairs of methods may be inside the wrapped structure together
 		ms := []string{"Put", "Offer", "Take", "Poll", "Push", "Pop"}
